@@ -95,6 +95,12 @@ func typeEncoderForms(zero interface{}, be bool) (names []string, encs []encode.
 	return
 }
 
+type teForms struct {
+	names []string
+	encs  []encode.Encoder
+	err   error
+}
+
 type intEnc struct {
 	name   string
 	enc    encode.Encoder
@@ -546,52 +552,61 @@ func C15(r *h.Run) {
 			}
 			w.Sample(map[string]interface{}{"encoder": "Dummy", "value": nil})
 		case "type":
-			for _, be := range []bool{false, true} {
-				var order binary.ByteOrder = binary.LittleEndian
-				name := "TypeEncoder(LE,struct)"
-				if be {
-					order = binary.BigEndian
-					name = "TypeEncoder(BE,struct)"
+			// constructor history: both byte orders are made before either is used,
+			// little-endian first in one pass and big-endian first in the other
+			for _, beFirst := range []bool{false, true} {
+				pre := map[bool]*teForms{}
+				for _, b := range []bool{beFirst, !beFirst} {
+					n, e, er := typeEncoderForms(typeT{}, b)
+					pre[b] = &teForms{n, e, er}
 				}
-				_ = order
-				forms, tes, err := typeEncoderForms(typeT{}, be)
-				if err != nil {
-					fail(name, nil, "constructor failed: "+err.Error())
-					return
-				}
-				// every field takes every lane pattern independently, others at a base pattern;
-				// plus all lanes equal.
-				var vals []typeT
-				for _, a := range lanes {
-					for _, b := range lanes {
-						for _, c := range lanes {
-							v := typeT{A: int8(a), B: uint16(b)<<8 | uint16(c)}
-							v.C[0] = int32(uint32(a)<<24 | uint32(b)<<16 | uint32(c)<<8 | uint32(a))
-							v.C[1] = int32(uint32(c)<<24 | uint32(a)<<8 | uint32(b))
-							v.D.E = uint64(a)<<56 | uint64(b)<<48 | uint64(c)<<24 | uint64(b)<<8 | uint64(a)
-							v.D.F = [3]byte{c, b, a}
-							vals = append(vals, v)
+				for _, be := range []bool{false, true} {
+					var order binary.ByteOrder = binary.LittleEndian
+					name := "TypeEncoder(LE,struct)"
+					if be {
+						order = binary.BigEndian
+						name = "TypeEncoder(BE,struct)"
+					}
+					_ = order
+					forms, tes, err := pre[be].names, pre[be].encs, pre[be].err
+					if err != nil {
+						fail(name, nil, "constructor failed: "+err.Error())
+						return
+					}
+					// every field takes every lane pattern independently, others at a base pattern;
+					// plus all lanes equal.
+					var vals []typeT
+					for _, a := range lanes {
+						for _, b := range lanes {
+							for _, c := range lanes {
+								v := typeT{A: int8(a), B: uint16(b)<<8 | uint16(c)}
+								v.C[0] = int32(uint32(a)<<24 | uint32(b)<<16 | uint32(c)<<8 | uint32(a))
+								v.C[1] = int32(uint32(c)<<24 | uint32(a)<<8 | uint32(b))
+								v.D.E = uint64(a)<<56 | uint64(b)<<48 | uint64(c)<<24 | uint64(b)<<8 | uint64(a)
+								v.D.F = [3]byte{c, b, a}
+								vals = append(vals, v)
+							}
 						}
 					}
-				}
-				for _, v := range vals {
-					want := refTypeT(v, be)
-					w.Evals++
-					w.Tick()
-					w.StatesN++
-					if nontrivBytes(want) {
-						w.NontrivN++
-					}
-					for fi, te := range tes {
-						if msg := checkEnc(w, te, v, want, func(a, c interface{}) bool { return reflect.DeepEqual(a, c) }); msg != "" {
-							fail(name+" via "+forms[fi], v, msg)
-							return
+					for _, v := range vals {
+						want := refTypeT(v, be)
+						w.Evals++
+						w.Tick()
+						w.StatesN++
+						if nontrivBytes(want) {
+							w.NontrivN++
 						}
+						for fi, te := range tes {
+							if msg := checkEnc(w, te, v, want, func(a, c interface{}) bool { return reflect.DeepEqual(a, c) }); msg != "" {
+								fail(name+" via "+forms[fi], v, msg)
+								return
+							}
+						}
+						// pointer input is accepted too (reflect.Indirect)
 					}
-					// pointer input is accepted too (reflect.Indirect)
+					w.Sample(map[string]interface{}{"encoder": name, "value": fmt.Sprintf("%+v", vals[37])})
+					w.FeatureN("type_encoder_struct_values", int64(len(vals)))
 				}
-				w.Sample(map[string]interface{}{"encoder": name, "value": fmt.Sprintf("%+v", vals[37])})
-				w.FeatureN("type_encoder_struct_values", int64(len(vals)))
 			}
 		case "typeint":
 			type mk struct {
@@ -615,53 +630,62 @@ func C15(r *h.Run) {
 				{"named-int16", c15Small(0), 2, func(u uint64) interface{} { return c15Small(u) }},
 			}
 			for _, k := range kinds {
-				for _, be := range []bool{false, true} {
-					var order binary.ByteOrder = binary.LittleEndian
-					if be {
-						order = binary.BigEndian
+				// constructor history: both byte orders are made before either is used,
+				// little-endian first in one pass and big-endian first in the other
+				for _, beFirst := range []bool{false, true} {
+					pre := map[bool]*teForms{}
+					for _, b := range []bool{beFirst, !beFirst} {
+						n, e, er := typeEncoderForms(k.zero, b)
+						pre[b] = &teForms{n, e, er}
 					}
-					name := fmt.Sprintf("TypeEncoder(%v,%s)", order, k.name)
-					forms, tes, err := typeEncoderForms(k.zero, be)
-					if err != nil {
-						fail(name, nil, "constructor failed: "+err.Error())
-						return
-					}
-					n := 1
-					for i := 0; i < k.width; i++ {
-						n *= len(lanes)
-					}
-					if n > 625 {
-						n = 625 * 5 // lanes^4 for low part, high lanes mirrored
-					}
-					for x := 0; x < n; x++ {
-						var uv uint64
-						y := x
-						for i := 0; i < k.width; i++ {
-							uv |= uint64(lanes[y%len(lanes)]) << (8 * uint(i))
-							y /= len(lanes)
-							if y == 0 && i >= 4 {
-								y = x
-							}
-						}
-						v := k.mk(uv)
-						want := refLE(uv, k.width)
+					for _, be := range []bool{false, true} {
+						var order binary.ByteOrder = binary.LittleEndian
 						if be {
-							want = refBE(uv, k.width)
+							order = binary.BigEndian
 						}
-						w.Evals++
-						w.Tick()
-						w.StatesN++
-						if nontrivBytes(want) {
-							w.NontrivN++
+						name := fmt.Sprintf("TypeEncoder(%v,%s)", order, k.name)
+						forms, tes, err := pre[be].names, pre[be].encs, pre[be].err
+						if err != nil {
+							fail(name, nil, "constructor failed: "+err.Error())
+							return
 						}
-						for fi, te := range tes {
-							if msg := checkEnc(w, te, v, want, eqPlain); msg != "" {
-								fail(name+" via "+forms[fi], fmt.Sprintf("0x%x", uv), msg)
-								return
+						n := 1
+						for i := 0; i < k.width; i++ {
+							n *= len(lanes)
+						}
+						if n > 625 {
+							n = 625 * 5 // lanes^4 for low part, high lanes mirrored
+						}
+						for x := 0; x < n; x++ {
+							var uv uint64
+							y := x
+							for i := 0; i < k.width; i++ {
+								uv |= uint64(lanes[y%len(lanes)]) << (8 * uint(i))
+								y /= len(lanes)
+								if y == 0 && i >= 4 {
+									y = x
+								}
+							}
+							v := k.mk(uv)
+							want := refLE(uv, k.width)
+							if be {
+								want = refBE(uv, k.width)
+							}
+							w.Evals++
+							w.Tick()
+							w.StatesN++
+							if nontrivBytes(want) {
+								w.NontrivN++
+							}
+							for fi, te := range tes {
+								if msg := checkEnc(w, te, v, want, eqPlain); msg != "" {
+									fail(name+" via "+forms[fi], fmt.Sprintf("0x%x", uv), msg)
+									return
+								}
 							}
 						}
+						w.Feature("type_encoder_int_kinds")
 					}
-					w.Feature("type_encoder_int_kinds")
 				}
 			}
 		}
